@@ -118,7 +118,7 @@ def work_special(args):
             conn = ops["connect"][0]
             want = 0.02 + (lim + 1) * rt
             if conn[3] != "failed" or abs(conn[2] - want) > 1e-3:
-                bad.append(("connect-bound", "connect with a refused ticket (%s): outcome %s at %s, expected failure at %.3f" % (scenario, conn[3], conn[2], want)))
+                bad.append(("connect-bound", "connect to a peer that cannot be connected to (%s): outcome %s at %s, expected failure at SYN round trip + (resend_limit+1)*resend_timeout = %.3f" % (scenario, conn[3], conn[2], want)))
         if getattr(se, "server_table", 0) != 0:
             bad.append(("server-forgets", "the server still holds %d client entries after the connection ended (%s)" % (se.server_table, scenario)))
         rec = ops.get("reconnect", [])
@@ -138,7 +138,7 @@ def run(ctx):
                 "exactly (resend_limit+1)*resend_timeout, late sends raise closed, server table empties, the address reconnects; each run is "
                 "replayed through the Lean L1 model tick-exactly; plus a forceful local close() on either side while recv / recv_unreliable are pending in other tasks "
                 "(released at once locally, within one delay at the peer; later recv raises end-of-stream), and a keyed server refusing the login (wrong key, "
-                "expired, garbage ticket), and a server handler that ends with an exception (end-of-stream escaping its receive loop, a rejected request) — each followed by a new working connection from the same address; distinct non-trivial = distinct (configuration, k, mode)")
+                "expired, garbage ticket), an incompatible peer that answers SYN and CONNECT at packet level (ticket presented to a keyless port; no credentials at a keyed port), and a server handler that ends with an exception (end-of-stream escaping its receive loop, a rejected request) — each followed by a new working connection from the same address; distinct non-trivial = distinct (configuration, k, mode)")
     base = dict(fragment_size=16, resend_timeout=0.5, ping_timeout=1.0)
     cfgs = []
     if quick:
@@ -175,7 +175,7 @@ def run(ctx):
                     sjobs.append((n, dict(base, version=version, credentials=creds, resend_limit=lim), 1, sc)); n += 1
             for sc in ("refused:wrong-key", "refused:expired", "refused:garbage"):
                 sjobs.append((n, dict(base, version=version, credentials=True, resend_limit=lim), 1, sc)); n += 1
-            for sc in ("handler-raises:eof", "handler-raises:reject"):
+            for sc in ("handler-raises:eof", "handler-raises:reject", "incompatible:creds-vs-keyless", "incompatible:keyless-vs-keyed"):
                 sjobs.append((n, dict(base, version=version, credentials=False, resend_limit=lim), 1, sc)); n += 1
     drv = ctx.driver("C02")
     ndiff, first = 0, None
